@@ -4,6 +4,10 @@
 WT=${1:-/tmp/wt_mut}
 cd /repo && (git worktree list | grep -q "$WT" || git worktree add -q --detach "$WT" HEAD)
 fail=0
+# run from a snapshot of /verif's code (sharing .work and the driver), so that editing /verif meanwhile does not disturb the run
+SNAP=$(mktemp -d /tmp/verif_snap.XXXXXX)
+rsync -a --exclude .work --exclude .git --exclude ptfacts --exclude out --exclude evidence /verif/ "$SNAP"/
+ln -s /verif/.work "$SNAP/.work"; ln -s /verif/ptfacts "$SNAP/ptfacts"
 for p in /verif/selftest/mut/*.patch; do
   b=$(basename "$p" .patch)
   (cd "$WT" && git checkout -q -- . && git clean -fdq -e target && git apply "$p") || { echo "APPLY-FAIL $b"; fail=1; continue; }
@@ -13,10 +17,11 @@ for p in /verif/selftest/mut/*.patch; do
     *) want=1; props=$(echo "$b" | cut -c1-3 | tr c C);;
   esac
   for prop in $props; do
-    out=$(cd /verif && PT_REPO="$WT" ./check $prop 2>&1); rc=$?
+    out=$(cd "$SNAP" && PT_REPO="$WT" ./check $prop 2>&1); rc=$?
     if [ $rc -ne $want ]; then fail=1; echo "UNEXPECTED $b $prop rc=$rc (want $want)"; echo "$out" | grep -E "^  [RBI]" | cut -c1-220 | head -3
     else echo "ok $b $prop rc=$rc $(echo "$out" | grep -E "^  [RBI]" | head -1 | cut -c1-140)"; fi
   done
 done
 (cd "$WT" && git checkout -q -- .)
+rm -rf "$SNAP"
 exit $fail
